@@ -1,7 +1,7 @@
 import GlueVerif.Lemmas.C17Msgs
 /-!
 Helper lemmas for C17, part 5: from state-level facts about one call to `specStep` on the
-observations, and those facts for every call inside the hypothesis.
+observations, and those facts for every call (`messagesCore_exact`, `messages_exact`, `trace_ok`).
 -/
 namespace GlueVerif.Lemmas.C17
 open GlueVerif.DataStruct
@@ -1239,7 +1239,7 @@ theorem step_err (probe : List Label) {s : State} {op : Op} (h : Inv s) {e : Err
   | nop => simp [stepCore, ok] at he
 
 
-/-! ## every successful call inside the hypothesis -/
+/-! ## every successful call -/
 
 theorem step_facts {s : State} {op : Op} (h : Inv s) (hids : ∀ c ∈ op.ids, c < s.next)
     (he : (stepCore s op).err = none) :
